@@ -50,6 +50,18 @@ def exec_io(c):
             part = np.asarray(img[:, :, :, :])
             if full.shape != tuple(img.shape) or not np.array_equal(full, part):
                 raise ValueError("get_full / shape / indexing disagree")
+            if lib.vid(c) % 3 == 1:
+                # the caller thresholds the array it was given in place; the file on disk is what it was: reading it again gives the same stack
+                first = np.array(full, copy=True)
+                try:
+                    full[...] = (full > 0).astype(full.dtype)
+                except (ValueError, TypeError):       # a read-only array: nothing to overwrite
+                    pass
+                del img
+                again = np.asarray(read_imgs(p, dtype=NP[c["ld"]]).get_full())
+                if again.shape != first.shape or not np.array_equal(again, first):
+                    raise ValueError("a second read of the same file differs")
+                full = first
     finally:
         shutil.rmtree(tmp, ignore_errors=True)
     if c["ld"] in ("u8", "u16"):
